@@ -1507,7 +1507,9 @@ def _inbound_xfr(
     else:
         tcpmsg = struct.pack("!H", len(wire)) + wire
         _net_write(s, tcpmsg, expiration)
-    with dns.xfr.Inbound(txn_manager, rdtype, serial, is_udp) as inbound:
+    with dns.xfr.Inbound(
+        txn_manager, rdtype, serial, is_udp, bool(query.keyring)
+    ) as inbound:
         done = False
         tsig_ctx = None
         r: dns.message.Message | None = None
